@@ -106,6 +106,11 @@ DOCS = {
     'pyobj': '--- !!python/object:checks.c11.Obj {v: 1}\n',
     'long': '---\n' + ''.join('- item %d: [%d, %s]\n' % (i, i * i, 'abc' * (i % 7)) for i in range(60)),
     'keys': '---\n? [complex, key]\n: value\n? |\n  block key\n: v2\n',
+    # short documents made of multi-byte characters: any small piece size splits a sequence
+    'cyrillic': '---\n\u043a\u043b\u044e\u0447: \u0437\u043d\u0430\u0447\u0435\u043d\u0438\u0435\n\u0441\u043f\u0438\u0441\u043e\u043a: [\u043e\u0434\u0438\u043d, \u0434\u0432\u0430]\n',
+    'cjk': '--- [\u65e5\u672c\u8a9e, \u4e2d\u6587, "\U0001F600\U0001F680", \u00df\u00fc\u00e9]\n',
+    # many aliases to one collection
+    'many_aliases': '---\n- &m {a: 1}\n' + '- *m\n' * 40,
     # three refill blocks of multi-byte characters at shifting offsets: every 4096-byte boundary splits a sequence
     'bigmb': '---\n' + ''.join('- %s: "%s"\n' % ('k' * (i % 3 + 1), ('\u00e9\u20ac' * 11 + '\U0001F600') * 2) for i in range(95)),
     # invalid, failing before their own end
@@ -134,6 +139,8 @@ RELATED = [
     ['anchor', 'anchor2', 'alias_undef_x', 'alias_undef_y', 'dup_anchor', 'rec_seq', 'e_dup_anchor_alias'],
     ['yaml11', 'plain', 'e_yaml2', 'e_dup_yaml', 'map'],
     ['merge', 'merge', 'anchor', 'map'],
+    ['cyrillic', 'cjk', 'unicode', 'bigmb'],
+    ['many_aliases', 'many_aliases', 'anchor'],
 ]
 
 
@@ -172,6 +179,8 @@ def make_values():
         'scalar': 'just a string',
         'none': None,
         'nested': {'k': [{'a': [1, {'b': 2}]}, 'x'], 'z': {'y': {'x': 0}}},
+        'mixedkeys': {1: 'a', 'two': 'b', 2.5: 'c', None: 'd'},
+        'unsorted': {'zeta': 1, 'alpha': 2, 'mid': {'y': 1, 'b': 2}, 'beta': 3},
         'ukeys': {'caf\u00e9': 1, '\u4e2d\u6587': [1], 'na\u00efve key': {'\u00fc': '\u00e9'}, '\U0001F600': None, 'plain': 'caf\u00e9'},
     }
 
@@ -329,8 +338,17 @@ def run_op(yaml, op, ctx):
         if api == 'emit':
             opts = {k: v for k, v in opts.items() if k in ('canonical', 'indent', 'width', 'allow_unicode', 'line_break')}
         stream = None
+        before = 0
         f = op.get('fault')
-        if op.get('to') == 'stream' or (f and f['ch'] == 'w'):
+        if op.get('to') == 'shared' and not f:
+            # one stream object that several calls of the history write to, one after the other (a log file kept
+            # open): what THIS call appends must be what the call writes into a fresh stream
+            key = (op.get('sid', 0), 'binary' if opts.get('encoding') else 'text')
+            stream = ctx.setdefault('shared_streams', {}).get(key)
+            if stream is None:
+                stream = ctx['shared_streams'][key] = SimWriter(key[1], True)
+            before = len(stream.pieces)
+        elif op.get('to') in ('stream', 'shared') or (f and f['ch'] == 'w'):
             fault = (f['at'], make_exc(f['kind'])) if f and f['ch'] == 'w' else None
             stream = SimWriter('text' if not opts.get('encoding') else 'binary', True, fault=fault, log=log)
         vals = ctx['values']
@@ -386,9 +404,15 @@ def run_op(yaml, op, ctx):
         except BaseException as exc:
             obs['exc'] = exc_summary(yaml, exc)
         if stream is not None:
-            w = stream.value()
-            obs['written'] = w if not isinstance(w, bytes) else {'bytes': w.hex()}
-            obs['writes'] = stream.calls
+            if before or op.get('to') == 'shared':
+                pieces = stream.pieces[before:]
+                w = (b'' if stream.kind == 'binary' else '').join(pieces)
+                obs['written'] = w if not isinstance(w, bytes) else {'bytes': w.hex()}
+                obs['writes'] = len(pieces)
+            else:
+                w = stream.value()
+                obs['written'] = w if not isinstance(w, bytes) else {'bytes': w.hex()}
+                obs['writes'] = stream.calls
         return obs
     finally:
         CURRENT['nested'], CURRENT['ctx'] = saved
@@ -501,7 +525,11 @@ def gen_load_op(r, reent_ok=True):
 def gen_dump_op(r, reent_ok=True):
     api = r.choice(['dump', 'dump', 'dump_all', 'dump_all', 'serialize', 'serialize_all', 'emit', 'emit'])
     cls = r.choice(DUMPERS)
-    op = {'api': api, 'cls': cls, 'to': r.choice(['return', 'return', 'stream'])}
+    op = {'api': api, 'cls': cls, 'to': r.choice(['return', 'return', 'stream', 'shared'])}
+    if op['to'] == 'shared' and not reent_ok:
+        op['to'] = 'stream'        # a call made while another call is in progress does not write into that call's stream
+    if op['to'] == 'shared':
+        op['sid'] = r.choice([0, 0, 1])
     if api in ('dump', 'dump_all'):
         names = VALUE_IDS
         n = 1 if api == 'dump' else r.randint(1, 4)
@@ -526,7 +554,7 @@ def gen_dump_op(r, reent_ok=True):
     return op
 
 
-VALUE_IDS = ['ukeys', 'plain', 'shared', 'shared_list', 'rec', 'recm', 'obj', 'obj_shared', 'strs', 'set', 'dates', 'bytes', 'tuple', 'big',
+VALUE_IDS = ['mixedkeys', 'unsorted', 'ukeys', 'plain', 'shared', 'shared_list', 'rec', 'recm', 'obj', 'obj_shared', 'strs', 'set', 'dates', 'bytes', 'tuple', 'big',
              'unrepr', 'scalar', 'none', 'nested']
 
 
@@ -534,10 +562,19 @@ def gen_op(r, reent_ok=True):
     return gen_load_op(r, reent_ok) if r.random() < 0.55 else gen_dump_op(r, reent_ok)
 
 
+RELATED_VALUES = [['mixedkeys', 'unsorted', 'plain', 'nested'], ['shared', 'shared_list', 'rec', 'recm', 'obj_shared'],
+                  ['ukeys', 'strs', 'scalar'], ['dates', 'set', 'tuple', 'bytes']]
+
+
+def related_values(r, n, unsorted=False):
+    g = [v for v in r.choice(RELATED_VALUES) if not (v == 'set' and unsorted)]
+    return [r.choice(g) for _ in range(n)]
+
+
 def gen_gen_op(r):
     api = r.choice(GEN_APIS)
     docs = [r.choice([d for d in DOC_IDS if d != 'reent']) for _ in range(r.randint(2, 5))]
-    if r.random() < 0.3:
+    if r.random() < 0.4:
         docs = related_docs(r, r.randint(2, 5))
     if r.random() < 0.15:
         docs.insert(r.randrange(2), 'bigmb')
@@ -573,8 +610,10 @@ def generate(seed, tier):
     if x < 0.35:
         n = r.randint(2, 5)
         opts = r.choice(['none', 'canonical', 'flow', 'tags', 'version', 'explicit', 'unicode', 'unsorted', 'dq'])
-        return {'mode': 'stream_dump', 'vals': [r.choice([v for v in VALUE_IDS if not (v == 'set' and opts == 'unsorted')]) for _ in range(n)],
-                'cls': r.choice(DUMPERS[:4]), 'opts': opts}
+        vals = [r.choice([v for v in VALUE_IDS if not (v == 'set' and opts == 'unsorted')]) for _ in range(n)]
+        if r.random() < 0.5:
+            vals = related_values(r, n, opts == 'unsorted')
+        return {'mode': 'stream_dump', 'vals': vals, 'cls': r.choice(DUMPERS[:4]), 'opts': opts}
     # swarm: per-run subset of step kinds
     kinds = {'call': 5, 'fault': r.choice([0, 1, 2]), 'interrupt': r.choice([0, 1, 2]), 'gen': r.choice([0, 2, 4]),
              'session': r.choice([0, 0, 1, 2])}
@@ -585,10 +624,20 @@ def generate(seed, tier):
 
     def gen_step():
         y = r.random()
-        if not live or (y < 0.3 and len(live) < 4):
-            st = {'t': 'start', 'task': state['ntask'], 'op': gen_gen_op(r)}
+        if not live or (y < 0.25 and len(live) < 3):
+            op = gen_gen_op(r)
+            if live and state.get('last_gen') and r.random() < 0.5:
+                # two similar inputs side by side (comparing two files): same kind of documents, same delivery
+                prev = state['last_gen']
+                op = dict(op, docs=list(prev['docs']), form=prev['form'], chunk=prev['chunk'], api=r.choice([prev['api'], op['api']]))
+                r.shuffle(op['docs'])
+            state['last_gen'] = op
+            st = {'t': 'start', 'task': state['ntask'], 'op': op}
             live.append(state['ntask'])
             state['ntask'] += 1
+            if r.random() < 0.75:
+                # a generator that is never advanced has not even built its loader: step the new task at once
+                return [st, {'t': 'next', 'task': st['task'], 'count': r.choice([1, 2, 3, 5])}]
             return st
         if y < 0.85:
             st = {'t': 'next', 'task': r.choice(live), 'count': r.choice([1, 1, 2, 3, 8])}
@@ -602,7 +651,8 @@ def generate(seed, tier):
     def inner_group():
         g = []
         for _ in range(r.choice([0, 1, 1, 2, 3])):
-            g.append({'t': 'call', 'op': gen_op(r, reent_ok=False)} if r.random() < 0.5 else gen_step())
+            x = {'t': 'call', 'op': gen_op(r, reent_ok=False)} if r.random() < 0.5 else gen_step()
+            g.extend(x if isinstance(x, list) else [x])
         return g
 
     for _ in range(r.randint(6, 30) if tier == 'quick' else r.randint(6, 50)):
@@ -618,7 +668,8 @@ def generate(seed, tier):
                 cls = r.choice([c for c in LOADERS if not c.endswith('BaseLoader')])
                 op = {'api': r.choice(['load', 'load_all']), 'cls': 'Reent' + cls, 'docs': ['reent'], 'terminate': True,
                       'form': r.choice(['str', 'bytes', 'bstream']), 'chunk': r.choice([1, 7, None])}
-                steps.append({'t': 'load_session', 'op': op, 'inner': [inner_group() or [gen_step()]]})
+                first = gen_step()
+                steps.append({'t': 'load_session', 'op': op, 'inner': [inner_group() or (first if isinstance(first, list) else [first])]})
             continue
         if k == 'call':
             steps.append({'t': 'call', 'op': gen_op(r)})
@@ -635,7 +686,8 @@ def generate(seed, tier):
         elif k == 'interrupt':
             steps.append({'t': 'interrupt', 'op': gen_op(r, reent_ok=r.random() < 0.3), 'at': r.random()})
         else:
-            steps.append(gen_step())
+            x = gen_step()
+            steps.extend(x if isinstance(x, list) else [x])
     return {'mode': 'history', 'steps': steps}
 
 
